@@ -49,7 +49,7 @@ PLANS = {
                 D("lock", n=10, steps=60, procs=12, faults=20, refresh=True, groups=2)],
                "cases: model states + seeded histories with a twin scan (same world, fresh controller) at every scan; non-trivial: a scan inside a cool-down "
                "(incl. below-minimum and removable nodes), or a scan after the cool-down in which the group is acted on again",
-               ["C02:scan-in-cooldown", "C02:cooldown-below-min", "C02:cooldown-removable", "C02:acts-after-cooldown", "C02:twin-acts", "C02:refresh-failed-in-cooldown"]),
+               ["C02:scan-in-cooldown", "C02:cooldown-below-min", "C02:cooldown-removable", "C02:acts-after-cooldown", "C02:twin-acts", "C02:refresh-failed-in-cooldown", "C02:cloud-call-took-a-tick"]),
     "C03": ctl(["updown", "auto", "all_scale"], ["updown", "updown@v2", "updown@v3", "auto", "lock", "all_scale"],
                [D("down", faults=10), D("mix")],
                [D("down", n=60, steps=100, procs=8, faults=10), D("mix", n=60, steps=100, procs=8)],
